@@ -9,8 +9,11 @@ PROP_FILE = 'Properties/C11.v'
 DESIGN_REF = 'DESIGN.md section 8, C11'
 
 
-def chunk(k, n):
-    """distinct, recognisable content for the k-th operation"""
+def chunk(k, n, style=0):
+    """distinct, recognisable content for the k-th operation; style 1: a run of the fill byte ('.' is also what holes read as),
+    style 2: NULs, style 3: 0xff -- stored bytes are stored bytes whatever their value"""
+    if style:
+        return {1: b'.', 2: b'\x00', 3: b'\xff'}[style] * n
     return bytes((97 + 3 * (k % 8) + j) % 256 for j in range(n))
 
 
@@ -33,6 +36,18 @@ def gen_histories(tier, rng):
                 else:
                     h.append(['a', chunk(k, o[1]).hex()])
             hs.append(h)
+    # the same scope once more with the FIRST chunk made of the fill byte (and, up to length 2, every chunk of the fill byte / NULs)
+    for L in range(2, maxlen + 1):
+        for combo in itertools.product(alphabet, repeat=L):
+            styles = [(1,) + (0,) * (L - 1)] + ([(1,) * L, (2,) * L, (0, 1)] if L == 2 else [])
+            for st in styles:
+                h = []
+                for k, o in enumerate(combo):
+                    if o[0] == 'i':
+                        h.append(['i', o[1], chunk(k, o[2], st[k]).hex()])
+                    else:
+                        h.append(['a', chunk(k, o[1], st[k]).hex()])
+                hs.append(h)
     nex = len(hs)
     for _ in range(nrand):
         L = rng.randint(4, 9)
@@ -40,10 +55,11 @@ def gen_histories(tier, rng):
         for k in range(L):
             r = rng.random()
             n = rng.choice([0, 0, 1, 1, 2, 3, 5])
+            sty = rng.choice([0, 0, 0, 1, 1, 2, 3])
             if r < 0.55:
-                h.append(['i', rng.randint(0, 24), chunk(k, n).hex()])
+                h.append(['i', rng.randint(0, 24), chunk(k, n, sty).hex()])
             elif r < 0.75:
-                h.append(['a', chunk(k, n).hex()])
+                h.append(['a', chunk(k, n, sty).hex()])
             elif r < 0.9:
                 h.append(['e', [chunk(k + j, rng.choice([0, 1, 2])).hex() for j in range(rng.randint(0, 3))]])
             else:
